@@ -539,9 +539,16 @@ def run_real(case, r):
         order = maxiter
     else:
         maxiter = 1
-        cc = {AdaptivityRK: dict(e_tol=e_tol), PA: dict(box=box)}
-        desc = dict(problem_class=pc, problem_params=pp, sweeper_class=rk, sweeper_params={}, level_params=dict(dt=dt, restol=-1), step_params=dict(maxiter=1), convergence_controllers=cc)
         order = rk.get_update_order()
+        rkpar = dict(e_tol=e_tol)
+        pick = int(round(-np.log10(e_tol) * 1000)) % 3
+        if pick:
+            # the order used in the proposal is a documented parameter: a value the user states wins over the sweeper's own
+            order = max(1, order + (1 if pick == 1 else -1))
+            rkpar['update_order'] = order
+        r.observe('rk_update_order', 'user' if pick else 'sweeper')
+        cc = {AdaptivityRK: rkpar, PA: dict(box=box)}
+        desc = dict(problem_class=pc, problem_params=pp, sweeper_class=rk, sweeper_params={}, level_params=dict(dt=dt, restol=-1), step_params=dict(maxiter=1), convergence_controllers=cc)
     ctrl = controller_nonMPI(procs, dict(logger_level=50, dump_setup=False, hook_class=[H], mssdc_jac=False), desc)
     hook = find_hook(ctrl, H)
     P = ctrl.MS[0].levels[0].prob
